@@ -42,5 +42,11 @@ Definition run (s : sx) : sx :=
       let l := xZs (a 1%nat) in
       let o := pyset_iter l in
       L [oZs o; oZs (match l with [] => [] | b :: _ => pyset_iter (filter (fun x => negb (x =? b)) o) end)]
+  | 4 => (* name, with either repair of notes/C15-fix-{1,2}.diff switched off: fix1 fix2 pitches *)
+      match name_pitches_v (xB (a 1%nat)) (xB (a 2%nat)) (xZs (a 3%nat)) with
+      | Err e => oErr (exn_code e)
+      | Ok NoChord => L [I 1; oZs (render NoChord)]
+      | Ok (Fig sy) => L [I 0; oZs (render (Fig sy)); oInterp sy]
+      end
   | _ => oErr 1
   end.
